@@ -180,7 +180,35 @@ def main(tier, seed):
         r = rng(seed, "c17/%d" % k)
         S = G.gen_schema(r, name=r.choice(["gs_%d" % k, "Mixed_Case_%d" % k, "a%d" % k]), keywordish=(k % 4 == 0))
         S = enrich(r, S)
-        text = G.render(S)
+        shape = "full"
+        if k % 10 == 3:
+            # defined types but no entity
+            shape = "types_only"
+            S.entities = []
+            keep = [t for t in S.types if t["kind"] in ("simple", "enum")]
+            kn = {t["name"] for t in keep}
+            keep += [t for t in S.types if t["kind"] == "aggr" and (t["elem"] in kn or t["elem"].split(" ")[0] in ("SET", "LIST", "BAG", "ARRAY") or t["elem"] in BASE)]
+            kn = {t["name"] for t in keep}
+            keep += [t for t in S.types if t["kind"] == "ref" and t["target"] in kn and t not in keep]
+            S.types = keep
+            S.rules, S.functions, S.consts = [], [], []          # they may name the entities that are gone
+        elif k % 10 == 7:
+            # neither entities nor types
+            shape = "empty"
+            S.entities = []
+            S.types = []
+            S.rules, S.consts = [], []
+            S.functions = [f_ for f_ in S.functions if k % 20 == 7 and not re.search(r"\b(e|t|en|ag|sel)\d+\b", str(f_))]   # now and then a function that names nothing of the schema
+        elif k % 10 == 5 and S.entities:
+            # a name so long that it fills a column of the scanner's file lists on its own
+            shape = "long_name"
+            old_n = S.entities[0]["name"]
+            new_n = (old_n + "_" + "long_entity_name_" * 6)[:r.choice([82, 83, 84, 90, 96, 97, 110])]
+            text = re.sub(r"\b%s\b" % re.escape(old_n), new_n, G.render(S))
+            S.entities[0]["name"] = new_n          # (after rendering: only the names are used below)
+        hist["shape_" + shape] = hist.get("shape_" + shape, 0) + 1
+        if shape != "long_name":
+            text = G.render(S)
         scanned, gfiles, rc_s, rc_g, fexp, errtxt = run_pair("s%d" % k, text)
         evals += 1
         what = None
